@@ -273,3 +273,18 @@ CLAIMS["C15"] = {
     "note": "Not decided: finiteness of the bootstrapped scale (numeric) and that exactly one model row survives per group for "
             "every data set beyond what the structure of the loop implies (argument in DESIGN.md C15.R3).",
 }
+
+CLAIMS["C10"] = {
+    "technique": "information-flow (taint) analysis over def-use terms, interprocedural through resolved callees with frame roles and two "
+                 "taint kinds; fit-argument provenance; enumeration of the featurizer's column reads; sibling agreement of the "
+                 "historical hiding with the unit split; row-set truth table for excluded units",
+    "level": "Non-interference is a property of pairs of runs; it is decided as absence of flow for all inputs: partial counts "
+             "(results_*, turnout_factor, percent_expected_vote) of frames containing not-yet-reporting rows never reach a regression "
+             "fit, a random draw, a reduction along the row axis, a matrix product or a grouping key in the unit-level code of the "
+             "three estimators (frozen, reasoned exceptions only); fit targets / weights come from the reporting frame; the featurizer "
+             "reads no results-derived column; historical results are zeroed for every requested estimand exactly on the "
+             "nonreporting side of the unit split; non-modelled and unexpected units are in neither model frame (truth table).",
+    "note": "Group sums of the aggregate functions are the property's own exception and are outside the scope. Not followed: aliasing "
+            "through object attributes (versioned history). Observation O4 (results_turnout visible in historical runs when turnout is "
+            "not an estimand) does not reach any estimate and is not counted.",
+}
